@@ -151,6 +151,10 @@ func (maps *trackedMaps) processUnfiltered(ctx context.Context, ef *Filter, filt
 	}
 
 	for _, m := range maps.unfiltered() {
+		if m.filtered {
+			// filtered meanwhile, as a map nested in one of the maps processed before it
+			continue
+		}
 		// we will mark the map as filtered at the bottom of this loop.
 		var v reflect.Value
 		switch {
@@ -294,7 +298,17 @@ func (maps *trackedMaps) processUnfiltered(ctx context.Context, ef *Filter, filt
 				v.SetMapIndex(key, f)
 
 			case fkind == reflect.Map:
-				newMaps, err := newTrackedMaps(&tMap{value: field})
+				// a nested map may be tracked already (pointer tags address it): keep
+				// what has been filtered in it instead of filtering it again as
+				// unclassified data.
+				nested := &tMap{value: field}
+				if tracked, ok := maps.getTracked(field.Pointer()); ok {
+					if tracked.filtered {
+						break
+					}
+					nested = tracked
+				}
+				newMaps, err := newTrackedMaps(nested)
 				if err != nil {
 					return fmt.Errorf("%s: unable to filter map: %w", op, err)
 				}
@@ -363,6 +377,15 @@ func (maps *trackedMaps) trackTaggable(taggable Taggable, pointer string) error 
 		tm.markFieldFiltered(segs[len(segs)-1])
 
 	default:
+		// the taggable map itself has to be filtered as well, even when no
+		// pointer addresses one of its own fields
+		if tv := reflect.ValueOf(taggable); tv.Kind() == reflect.Map {
+			if _, ok := maps.getTracked(tv.Pointer()); !ok {
+				if err := maps.trackMap(&tMap{value: tv, filteredFields: map[string]struct{}{}}); err != nil {
+					return fmt.Errorf("%s: unable to track taggable map: %w", op, err)
+				}
+			}
+		}
 		// default is a map that we need to go get via the pointer
 		foundMap, err := pointerstructure.Get(taggable, strings.Join(segs[:len(segs)-1], "/"))
 		if err != nil {
